@@ -48,6 +48,10 @@ func (p precompileOracle) Run(
 	if err != nil {
 		return nil, err
 	}
+
+	// Gracefully handles "out of gas"
+	defer HandleOutOfGasPanic(&err)()
+
 	method, args, ctx := startResult.Method, startResult.Args, startResult.CacheCtx
 
 	switch PrecompileMethod(method.Name) {
